@@ -210,6 +210,13 @@ func compareCascade(d *dom, inItems, outItems []fitem, vars []string, r *Rng, st
 
 var boxLonghandRe = regexp.MustCompile(`^(margin-(top|right|bottom|left)|padding-(top|right|bottom|left)|top|right|bottom|left|border-(top|bottom)-(left|right)-radius)$`)
 
+func insetLowered(o glueOpts) bool {
+	if ok, set := o.supported["inset-property"]; set && !ok {
+		return true
+	}
+	return len(o.engines) > 0
+}
+
 func nestingLowered(o glueOpts) bool {
 	if ok, set := o.supported["nesting"]; set && !ok {
 		return true
@@ -264,15 +271,29 @@ func glueTransformCase(r *Rng, st *Stats, src string, d *dom, o glueOpts, scenar
 					}
 				}
 			}
-			if scenario == "" && o.minifySyntax && boxLonghandRe.MatchString(fmt.Sprint(detail["property"])) {
-				hasUnsafeUnit := false
-				for _, v := range vars {
-					if strings.HasPrefix(v, "unit:") {
-						hasUnsafeUnit = true
+			if scenario == "" && insetLowered(o) && strings.Contains(src, "inset") && boxLonghandRe.MatchString(fmt.Sprint(detail["property"])) {
+				// known limitation: lowering "inset" to four longhands changes what a
+				// browser that rejects ONE of the values (unit it does not know) throws
+				// away: the whole shorthand before, only that side after
+				und := map[string]bool{}
+				if u, ok := detail["understood"].([]string); ok {
+					for _, k := range u {
+						und[k] = true
 					}
 				}
-				if hasUnsafeUnit {
-					scenario = "box-shorthand-placed-before-kept-declaration"
+				for _, v := range vars {
+					if strings.HasPrefix(v, "unit:") && !und[v] {
+						scenario = "inset-lowering-splits-value-invalidation"
+					}
+				}
+			}
+			if scenario == "" && o.minifySyntax && detail["output_winner"] == "<none>" && boxLonghandRe.MatchString(fmt.Sprint(detail["property"])) {
+				// known finding C12-J: after a collapse the tracker's sides still point at
+				// the old rule slots, so a later longhand blanks the combined shorthand
+				for _, v := range vars {
+					if strings.HasPrefix(v, "unit:") {
+						scenario = "box-tracker-stale-index-deletes-shorthand"
+					}
 				}
 			}
 			if scenario == "" && nestingLowered(o) && strings.Contains(out, ":is(") {
@@ -483,6 +504,8 @@ func glueCorpus(r *Rng, st *Stats) {
 		{"a{width:1.5e10px;order:1.0e10;height:1.50e2px;z-index:10.0e0}", min, "mangle-number-strips-exponent-zeros"},
 		{"b{inset:1px 2px 3px 4px} b.c2{inset:var(--v) 0 0 0}", noInset, "inset-lowering-skips-unsplittable-value"},
 		{"*, a:-moz-foo { color: red !important; > b { color: blue } }", noNest, "nesting-lowering-wraps-parent-in-forgiving-is"},
+		{"a{margin:1px;margin-left:2px;margin-top:1vw;margin-left:3px}", min, "box-tracker-stale-index-deletes-shorthand"},
+		{"a{bottom:3px;inset:2vw 1em 10% 0px;bottom:1vw}", glueOpts{loader: api.LoaderCSS, engines: []api.Engine{{Name: api.EngineFirefox, Version: "65"}}, desc: "loader=css target=firefox65"}, "inset-lowering-splits-value-invalidation"},
 		{"div > a { :is(&, span) { color: red } } div > b { color: blue; :not(&) { order: 1 } }", noNest, ""},
 		{"a ~ b { :is(&, span) { color: red } } a + b { :not(&) { order: 2 } }", noNest, ""},
 		// directed probes (must pass): importance is part of a declaration's identity; layers keep first-declaration order
